@@ -440,7 +440,7 @@ var needs = map[string][]string{
 	"dm-r-sizes":         {"dm-size-0", "dm-size-1", "dm-size-2", "dm-size-3", "dm-size-4", "dm-size-5", "dm-size-6", "dm-size-7", "dm-size-8", "dm-size-9"},
 	"dm-r-rsizes":        {"dm-rsize-0", "dm-rsize-1", "dm-rsize-2", "dm-rsize-3", "dm-rsize-4", "dm-rsize-5"},
 	"code128-r-sideways": {"code128-sideways"}, "lum-rgb-yuv": {"qr-loc"},
-	"misc-api":    {"dm-pure", "qr-pure", "upca", "aztec-c"},
+	"misc-api":        {"dm-pure", "qr-pure", "upca", "aztec-c"},
 	"fail-qr-damaged": {"qr-pure"}, "fail-dm-damaged": {"dm-pure"}, "fail-1d-wrong-check": {"ean13"}, "fail-charset-hints": {"qr-pure"},
 	"rows-upcean": {"ean13", "ean8", "upca", "upce"}, "rows-other": {"code39", "code93", "code128", "itf", "codabar"}, "rss14-r-reset": {"rss14"},
 	"code93-r": {"code93"}, "code128-r": {"code128"}, "itf-r": {"itf"}, "codabar-r": {"codabar"}, "rss14-r": {"rss14"},
